@@ -528,6 +528,9 @@ def worker_init():
         def now(cls, tz=None):
             return _Clock.now()
 
+    import logging
+
+    logging.disable(logging.CRITICAL)  # the interpreter logs every flow error with a traceback
     sm.datetime = FakeDT
     flows.datetime = FakeDT
     utils.secure_random = _FakeRandomBits()
